@@ -1,5 +1,6 @@
 import Glom.Lemmas.C16F10
 import Glom.Lemmas.C16Heap
+import Glom.Lemmas.C16State
 import Glom.Model.C16Env
 /-
   C16 — Group builds exactly the buckets and aggregates of a hand-written loop.
@@ -17,25 +18,31 @@ import Glom.Model.C16Env
 
   FULL STATEMENT (what the property says):
       ∀ g items, wfRun g items → groupEval g items = .ok (valOfTop g items)
-  It is FALSE for the code that exists: `c16_F9_counterexample` and
-  `c16_F10_counterexample` disprove it on concrete inputs on which the real glom
-  behaves exactly as the model (the correspondence runs both witnesses on every check).
+  with `valOfTop` the hand-written loop, defined for EVERY item list (no knowledge of what glom
+  returns over nothing).  It is FALSE for the code that exists: `c16_F9_counterexample`,
+  `c16_F10_counterexample` and `c16_empty_counterexample` disprove it on concrete inputs on which
+  the real glom behaves exactly as the model (the correspondence runs the witnesses on every
+  check).
 
   What is proved instead says EXACTLY what the code computes:
       `c16_exact`:  groupEval g items = .ok (implTop g items)
-  — the hand-written loop over the items before the first STOP event (`cutEvent`), under
+  — `implOf` over the items before the first STOP event (`cutEvent`), `emptyOf g` over nothing — under
       H2' `slotApart`  : no bucket key equals id() of its spec dict — the tree keeps ids,
-                         spec objects and bucket keys in one dict (F10);
-      `noSkipBelow`    : no SKIP-producing bare function below a key level (the ordering of
-                         keys is then by first value: outside the reference);
-      `wfRun`          : no user function raises, keys hashable, aggregators meet operands
-                         they handle (the runs the property talks about).
-  So the property holds on a run iff cutting it at the first STOP event makes no difference
-  to the hand-written loop (`c16_holds_iff_cut_invariant`), in particular
+                         spec objects and bucket keys in one dict (F10; `c16_F10_exact`);
+      `noSkipBelow`    : no SKIP from a bare function / nested Group below a key level (the code
+                         wipes the bucket's sub-tree after a SKIP result: known finding
+                         `skip_below_key_level`, characterised by agreement with the model only);
+      `wfRun`          : no user function raises, keys hashable, aggregators meet operands they
+                         handle IN THEIR BUCKET (the runs the property talks about).
+  The property holds on a run iff `implTop` is the hand-written loop's value
+  (`c16_holds_iff_cut_invariant`), in particular (`c16_eq_reference_partial`) when
       H1'' `eventFree` : no STOP EVENT — First, Limit(n), STOP-producing functions may be
-                         anywhere as long as they do not fire (`c16_eq_reference_partial`),
-  and with a top-level `Limit(n)` / `First` (`c16_top_limit`, `c16_top_first`); F9 is the
-  remaining case: a STOP from ONE bucket's leaf ends the evaluation for ALL buckets.
+                         anywhere as long as they do not fire — also in nested Groups,
+      no SKIP leaf, no nested Group over nothing, and not over nothing at the top unless an empty
+      container / None is what the loop gives there;
+  and with a top-level `Limit(n)`, n ≥ 1 / `First` (`c16_top_limit`, `c16_top_first`).  F9 is the
+  case of a STOP event that matters; `empty_or_limit0` the case of `emptyOf` / `Limit(0)` / a
+  bucket whose leaf says STOP at once (`c16_empty`).
 -/
 namespace Glom.Props.C16
 open Glom.C16
@@ -70,34 +77,27 @@ theorem c16_holds_iff_cut_invariant (g : GSpec) (items : List V)
 
 /-- **Group = the hand-written bucketing loop** (partial: H1'', H2').  For every spec tree, every
     item sequence on which nothing says STOP (First, Limit(n), STOP-producing functions may be
-    anywhere in the spec — they just do not fire — also in nested Groups): keys in order of first
+    anywhere in the spec — they just do not fire — also in nested Groups), no bare function /
+    nested Group yields SKIP, no nested Group runs over nothing, and the run itself is not over
+    nothing unless an empty container / None is what the loop gives: keys in order of first
     occurrence, values in encounter order, SKIP drops an item, every leaf equals its Python
     reference over the items routed to it. -/
 theorem c16_eq_reference_partial (g : GSpec) (items : List V)
-    (hwf : wfRun g items = true) (h2 : slotApart g items = true) (hns : noSkipBelow false g items = true)
-    (h1 : eventFree g items = true) (h1n : nestedFree g items = true) :
+    (hwf : wfRun g items = true) (h2 : slotApart g items = true) (hns : noSkipBelow true g items = true)
+    (h1 : eventFree g items = true) (h1n : nestedFree g items = true)
+    (hem : items = [] → emptyOf g = valOfTop g []) :
     groupEval g items = .ok (valOfTop g items) :=
-  groupEval_spec g items ⟨hwf, h2, hns⟩ h1 h1n
-
-/-- the earlier, stronger hypotheses — H1' no STOP SOURCE anywhere in the spec (no First, no Limit,
-    no function that says STOP on an item), H2 keys apart from id(spec dict) AND from the key-spec
-    object — imply the present ones: nothing was lost -/
-theorem c16_eq_reference_of_stopFree (g : GSpec) (items : List V)
-    (hwf : wfRun g items = true) (h1 : stopFree false g items = true) (h2 : keysApart g items = true) :
-    groupEval g items = .ok (valOfTop g items) :=
-  groupEval_spec g items
-    ⟨hwf, slotApart_of_keysApart g items h2, noSkipBelow_of_stopFree g false items h1⟩
-    (eventFree_of_stopFree g false items h1) (nestedFree_of_stopFree g false items h1)
+  groupEval_spec g items ⟨hwf, h2, hns⟩ h1 h1n hem
 
 /-- the step form of the same fact: with the tree the earlier items left, one more item
-    yields the reference over all items so far and the tree of all items so far — so a
+    yields the code's value over all items so far and the tree of all items so far — so a
     sub-tree is exactly the state of the items routed to that bucket (no carry-over
     between buckets) — or STOP, exactly when the hand-written loop is told STOP -/
 theorem c16_step (g : GSpec) (below : Bool) (its : List V) (x : V)
     (hwf : wfRun g (its ++ [x]) = true) (h2 : slotApart g (its ++ [x]) = true)
     (hns : noSkipBelow below g (its ++ [x]) = true) (hef : eventFree g its = true) :
     (stopsAt g its x = false →
-      gstep g x (treeOf g its) = .ok (valOfC true g (its ++ [x]), treeOf g (its ++ [x]))) ∧
+      gstep g x (treeOf g its) = .ok (implOf g (its ++ [x]), treeOf g (its ++ [x]))) ∧
     (stopsAt g its x = true → ∃ t, gstep g x (treeOf g its) = .ok (.stop, t)) :=
   gstep_both g below its x ⟨hwf, h2, hns⟩ hef
 
@@ -106,26 +106,25 @@ theorem c16_step (g : GSpec) (below : Bool) (its : List V) (x : V)
     whose key equals `k` (Python key equality), in encounter order — `routed key k items` -/
 theorem c16_bucket_lookup (id kid : Nat) (key : Fn) (sub : GSpec) (items : List V)
     (hwf : wfRun (.dict id kid key sub) items = true) (h2 : slotApart (.dict id kid key sub) items = true)
-    (hns : noSkipBelow false (.dict id kid key sub) items = true)
+    (hns : noSkipBelow true (.dict id kid key sub) items = true)
     (h1 : eventFree (.dict id kid key sub) items = true) (h1n : nestedFree (.dict id kid key sub) items = true) :
-    groupEval (.dict id kid key sub) items = .ok (.dict ((buckets key items).map (fun b => (b.1, valOf sub b.2)))) ∧
-    ∀ k, dget ((buckets key items).map (fun b => (b.1, valOf sub b.2))) k =
-      if (routed key k items).isEmpty then none else some (valOf sub (routed key k items)) := by
-  refine ⟨?_, fun k => dget_buckets key (valOf sub) items k⟩
-  rw [groupEval_spec _ items ⟨hwf, h2, hns⟩ h1 h1n]
+    groupEval (.dict id kid key sub) items = .ok (.dict ((buckets key items).map (fun b => (b.1, refOf sub b.2)))) ∧
+    ∀ k, dget ((buckets key items).map (fun b => (b.1, refOf sub b.2))) k =
+      if (routed key k items).isEmpty then none else some (refOf sub (routed key k items)) := by
+  refine ⟨?_, fun k => dget_buckets key (refOf sub) items k⟩
+  rw [groupEval_spec _ items ⟨hwf, h2, hns⟩ h1 h1n (fun _ => rfl)]
   congr 1
-  cases items with
-  | nil => rfl
-  | cons y ys => simp only [valOfTop, emptyOr, List.isEmpty_cons, Bool.false_eq_true, if_false]; exact valOfC_dict false id kid key sub _ h1
+  rw [valOfTop, refOf_dict id kid key sub items ⟨hwf, h2, hns⟩ h1 h1n]
+  rfl
 
 /-- … so items routed to OTHER buckets do not matter: two runs that route the same items to `k`
     (whatever else they contain, in whatever order) have the same entry under `k` -/
 theorem c16_bucket_independent (id kid : Nat) (key : Fn) (sub : GSpec) (items items' : List V) (k : V)
     (hwf : wfRun (.dict id kid key sub) items = true) (h2 : slotApart (.dict id kid key sub) items = true)
-    (hns : noSkipBelow false (.dict id kid key sub) items = true)
+    (hns : noSkipBelow true (.dict id kid key sub) items = true)
     (h1 : eventFree (.dict id kid key sub) items = true) (h1n : nestedFree (.dict id kid key sub) items = true)
     (hwf' : wfRun (.dict id kid key sub) items' = true) (h2' : slotApart (.dict id kid key sub) items' = true)
-    (hns' : noSkipBelow false (.dict id kid key sub) items' = true)
+    (hns' : noSkipBelow true (.dict id kid key sub) items' = true)
     (h1' : eventFree (.dict id kid key sub) items' = true) (h1n' : nestedFree (.dict id kid key sub) items' = true)
     (hsame : routed key k items = routed key k items') :
     ∃ es es', groupEval (.dict id kid key sub) items = .ok (.dict es) ∧
@@ -134,30 +133,30 @@ theorem c16_bucket_independent (id kid : Nat) (key : Fn) (sub : GSpec) (items it
   obtain ⟨e2, l2⟩ := c16_bucket_lookup id kid key sub items' hwf' h2' hns' h1' h1n'
   exact ⟨_, _, e1, e2, by rw [l1 k, l2 k, hsame]⟩
 
-/-- **top-level Limit(n)**: `Group(Limit(n, sub))` equals the reference, which for `n ≥ 1` is
-    `sub` over the first `n` items (`c16_top_limit_take`) -/
-theorem c16_top_limit (oid n : Nat) (sub : GSpec) (items : List V)
-    (hwf : wfRun sub items = true) (h2 : slotApart sub items = true) (hns : noSkipBelow false sub items = true)
+/-- **top-level Limit(n)**, n ≥ 1, over at least one item: `sub` over the first `n` items.
+    (`Limit(0)` / no item: `c16_empty`.) -/
+theorem c16_top_limit (oid n : Nat) (sub : GSpec) (items : List V) (hn : n ≠ 0) (hne : items ≠ [])
+    (hwf : wfRun sub items = true) (h2 : slotApart sub items = true) (hns : noSkipBelow true sub items = true)
     (h1 : eventFree sub items = true) (h1n : nestedFree sub items = true) :
-    groupEval (.limit oid n sub) items = .ok (valOfTop (.limit oid n sub) items) :=
-  limit_spec oid n sub items ⟨hwf, h2, hns⟩ h1 h1n
-
-theorem c16_top_limit_take (oid n : Nat) (sub : GSpec) (items : List V) (hn : n ≠ 0) (hne : items ≠ []) :
-    valOfTop (.limit oid n sub) items = valOfTop sub (items.take n) := by
-  have h1 : items.isEmpty = false := by simpa using hne
-  have h2 : (items.take n).isEmpty = false := by
-    cases items with
-    | nil => exact absurd rfl hne
-    | cons x xs => cases n with
-      | zero => exact absurd rfl hn
-      | succ m => simp
-  have h3 : (n == 0) = false := by simpa using hn
-  simp [valOfTop, emptyOr, valOfC, h1, h2, h3]
+    groupEval (.limit oid n sub) items = .ok (valOfTop sub (items.take n)) :=
+  limit_spec oid n sub items hn hne ⟨hwf, h2, hns⟩ h1 h1n
 
 /-- **top-level First**: the first item (None when there is none) -/
 theorem c16_top_first (oid : Nat) (items : List V) (hp : ∀ x ∈ items, isStop x = false ∧ isSkip x = false) :
     groupEval (.agg oid .first) items = .ok (items.head?.getD .none) :=
   first_spec oid items hp
+
+/-- **over nothing, and `Limit(0)`** — what the code computes where the hand-written loop still has an
+    answer (known finding `empty_or_limit0`): over no items the result is `emptyOf g` (an empty
+    dict / list for a dict / list spec, None for everything else, whatever the loop would give:
+    0 for Sum / Count, [] for Flatten / `[f]` under a Limit, {} for Merge); `Limit(0, sub)` is None
+    over any items. -/
+theorem c16_empty (g : GSpec) (oid : Nat) (items : List V) :
+    groupEval g [] = .ok (emptyOf g) ∧ groupEval (.limit oid 0 g) items = .ok .none := by
+  refine ⟨rfl, ?_⟩
+  cases items with
+  | nil => rfl
+  | cons x xs => simp [groupEval, groupLoop, loopWith, gstep, limitState, dget, isStop, emptyOf]
 
 /-- **Sample(size)** with its random source as a parameter (`tbl`: `random.randint(0, n)` is
     `draw tbl n`): the result is the reservoir of the hand-written loop — for EVERY table — so it
@@ -169,20 +168,11 @@ theorem c16_sample (oid size : Nat) (tbl : List Nat) (items : List V) :
     (∀ v ∈ (refSample size tbl items).2, v ∈ items) ∧
     (items.length ≤ size → (refSample size tbl items).2 = items) := by
   refine ⟨?_, refSample_length size tbl items, refSample_mem size tbl items, refSample_small size tbl items⟩
-  rw [groupEval_spec _ items ⟨rfl, rfl, rfl⟩ (sample_eventFree oid size tbl items) rfl]
-  cases items <;> rfl
-
-/-- **fresh tree per evaluation, also when nested**: a Group object in value position
-    neither reads nor writes the enclosing evaluation's tree — whatever that tree holds,
-    the nested evaluation is the stand-alone evaluation of its spec on the item, and the
-    enclosing tree comes back unchanged.  (Re-use: `groupEval` takes no tree at all —
-    Group.glomit binds `scope[ACC_TREE] = {}` itself, a statement `c16_facts_wf` pins.) -/
-theorem c16_fresh (g : GSpec) (xs : List V) (tree : List (V × V)) :
-    gstep (.nested g) (.list xs) tree = (groupEval g xs).map (fun r => (r, tree)) ∧
-    gstep (.nested g) (.tuple xs) tree = (groupEval g xs).map (fun r => (r, tree)) := by
-  constructor <;>
-  · simp only [gstep, iterOf, groupEval, groupLoop]
-    cases loopWith (gstep g) xs (emptyOf g) [] <;> rfl
+  cases items with
+  | nil => rfl
+  | cons y ys =>
+    rw [groupEval_spec _ (y :: ys) ⟨rfl, rfl, rfl⟩ (sample_eventFree oid size tbl _) rfl (fun h => by cases h)]
+    rfl
 
 /-- **Checker theorem** — the form in which the property is evaluated on the implementation's
     observations by the correspondence driver: for every HISTORY of evaluations in one process
@@ -196,16 +186,48 @@ theorem c16_model_checks (specs : List GSpec) (targets : List (List V)) (evals :
     checkC16 specs targets evals (observeHistory specs targets evals) = true :=
   check_model specs targets evals hidx h
 
-/-- **histories**: an evaluation in the middle of any history of evaluations (of any spec objects on
-    any target objects) is the stand-alone evaluation: nothing is carried from one evaluation to
-    the next, in whatever order they run -/
-theorem c16_history_independent (specs : List GSpec) (targets : List (List V)) (pre post : List (Nat × Nat))
-    (e : Nat × Nat) :
-    (evalHistory specs targets (pre ++ e :: post))[pre.length]? = (evalHistory specs targets [e])[0]? := by
-  rw [evalHistory_append]
-  have hl : (evalHistory specs targets pre).length = pre.length := by simp [evalHistory]
-  rw [List.getElem?_append_right (by omega), hl]
-  simp [evalHistory]
+/-- **nothing is carried from one evaluation to the next** — with the state OUTSIDE the accumulator
+    tree made explicit (`Model/C16State.lean`): for EVERY value of the extracted state facts that is
+    `quiet` (only constructors write attributes of the Group / aggregator / Limit / Fold objects, no
+    function of grouping.py / reduction.py writes a module-level name, there is no mutable
+    module-level or class-level binding, no mutable default argument), every history of
+    evaluations — any Group objects on any targets, in any order, the same object any number of
+    times, nested in other specs (`gidOf`) — leaves the state as it was and every evaluation in it
+    is the stand-alone evaluation.  (`c16_facts_wf`: the facts extracted from /repo ARE quiet.) -/
+theorem c16_history_independent (sf : StateFacts) (hq : sf.quiet = true) (gidOf : Nat → Nat)
+    (specs : List GSpec) (targets : List (List V)) (evals : List (Nat × Nat)) :
+    evalHistoryS sf gidOf specs targets evals [] = (evalHistory specs targets evals, []) :=
+  evalHistoryS_quiet hq gidOf specs targets evals
+
+/-- … instantiated with the facts regenerated from /repo -/
+theorem c16_history_independent_repo (gidOf : Nat → Nat) (specs : List GSpec) (targets : List (List V))
+    (evals : List (Nat × Nat)) :
+    evalHistoryS genStateFacts gidOf specs targets evals [] = (evalHistory specs targets evals, []) :=
+  evalHistoryS_quiet (by decide) gidOf specs targets evals
+
+-- the hypothesis is forced: with a dispatcher that remembers something in a module-level table it also
+-- reads (seeded change s8: GROUP and `_SPEC_KINDS`) no evaluation has a stand-alone meaning any
+-- more; with a counter in `Limit.glomit` (`self.n -= 1`) neither.  (It is sufficient, not necessary: a
+-- write to a cell nothing reads — a call counter `self.calls` — leaves every result what it was,
+-- but not the state.)
+example : let sf : StateFacts := ⟨[("Group.__init__", "spec")], [("GROUP", "_SPEC_KINDS")], [("grouping", "_SPEC_KINDS")], []⟩
+    sf.quiet = false ∧
+    (match (evalHistoryS sf id [.agg 0 .count, .agg 0 .count] [[.int 1]] [(0, 0), (1, 0)] []).1 with
+      | [none, none] => true
+      | _ => false) = true := by
+  decide
+example : let sf : StateFacts := ⟨[("Group.__init__", "spec"), ("Group.glomit", "calls")], [], [], []⟩
+    sf.quiet = false ∧
+    (match evalHistoryS sf id [.agg 0 .count] [[.int 1]] [(0, 0), (0, 0)] [] with
+      | ([some (.ok v), some (.ok w)], [_, _]) => veq v (.int 1) && veq w (.int 1)
+      | _ => false) = true := by
+  decide
+example : let sf : StateFacts := ⟨[("Limit.__init__", "n"), ("Limit.glomit", "n")], [], [], []⟩
+    sf.quiet = false ∧
+    (match (evalHistoryS sf id [.limit 7 2 (.agg 0 .count)] [[.int 1]] [(0, 0)] []).1 with
+      | [none] => true
+      | _ => false) = true := by
+  decide
 
 /-! ### the target is not touched: T-expressions on a store of mutable cells -/
 
@@ -286,6 +308,23 @@ theorem c16_F10_counterexample :
     checkC16 [g] [items] [(0, 0)] (observeHistory [g] [items] [(0, 0)]) = false := by
   decide
 
+/-- `empty_or_limit0` — `glom([], Group(Sum()))` is None, the hand-written loop gives 0;
+    `glom([0, 1], Group(Limit(0)))` is None, the loop gives `[]`; `Group({T % 2: Limit(0, [T])})`
+    over `[0, 1]` is `{}`, the loop gives `{0: [], 1: []}`.  H1'' fails only for the Limit(0) runs
+    (its bound is reached at once); H2' holds. -/
+theorem c16_empty_counterexample :
+    let sum : GSpec := .agg 0 (.sum .ident)
+    let lim0 : GSpec := .limit 1 0 (.list 0 .ident)
+    let g : GSpec := .dict 2 3 (.mod 2) lim0
+    let items : List V := [.int 0, .int 1]
+    wfRun sum [] = true ∧ (observe (groupEval sum []) == .ok .none) = true ∧ (valOfTop sum [] == .int 0) = true ∧
+    (observe (groupEval lim0 items) == .ok .none) = true ∧ (valOfTop lim0 items == .list []) = true ∧
+    (observe (groupEval g items) == .ok (.dict [])) = true ∧
+    (valOfTop g items == .dict [(.int 0, .list []), (.int 1, .list [])]) = true ∧
+    checkC16 [sum, lim0, g] [[], items] [(0, 0), (1, 1), (2, 1)]
+      (observeHistory [sum, lim0, g] [[], items] [(0, 0), (1, 1), (2, 1)]) = false := by
+  decide
+
 /-- **known finding F10, exactly** (a key level at the top, one colliding item):
     `items = pre ++ [c] ++ post`, the key of `c` is `id(spec dict)`, no other key is; no STOP event
     before / after; the keys of `post` are not keys of the colliding bucket's sub-tree.  If `c` is the
@@ -295,6 +334,7 @@ theorem c16_F10_counterexample :
     and `c`'s own bucket, are gone.  Any other outcome of such a run is not the model's. -/
 theorem c16_F10_exact (id kid : Nat) (key : Fn) (sub : GSpec) (pre post : List V) (c : V)
     (hwf : wfRun (.dict id kid key sub) (pre ++ c :: post) = true)
+    (hwfpost : wfRun (.dict id kid key sub) post = true)
     (hkc : key.val c = idKey id)
     (hsa : ∀ y ∈ pre ++ post, keyEq (idKey id) (key.val y) = false)
     (hsasub : slotApart sub (pre ++ c :: post) = true)
@@ -304,9 +344,9 @@ theorem c16_F10_exact (id kid : Nat) (key : Fn) (sub : GSpec) (pre post : List V
     (ha0 : ∀ y ∈ post, dhas (treeOf sub [c]) (key.val y) = false) :
     groupEval (.dict id kid key sub) (pre ++ c :: post) =
       .ok (if post.isEmpty then
-             .dict ((buckets key pre).map (fun b => (b.1, valOfC true sub b.2)) ++ [(idKey id, valOfC true sub [c])])
-           else .dict (treeOf sub [c] ++ (buckets key post).map (fun b => (b.1, valOfC true sub b.2)))) :=
-  f10_exact id kid key sub pre post c hwf hkc hsa hsasub hns hefpre hefpost ha0
+             .dict ((buckets key pre).map (fun b => (b.1, implOf sub b.2)) ++ [(idKey id, implOf sub [c])])
+           else .dict (treeOf sub [c] ++ (buckets key post).map (fun b => (b.1, implOf sub b.2)))) :=
+  f10_exact id kid key sub pre post c hwf hwfpost hkc hsa hsasub hns hefpre hefpost ha0
 
 /-! ### non-vacuity: concrete non-trivial inputs meet every hypothesis -/
 
@@ -314,12 +354,12 @@ theorem c16_F10_exact (id kid : Nat) (key : Fn) (sub : GSpec) (pre post : List V
 -- applies to it, and its closed form is the observed `{id(the [T] list): [2], 3: [3]}`
 example : groupEval (.dict 0 1 (.idIf (.int 2) 0) (.list 2 .ident)) ([.int 1] ++ .int 2 :: [.int 3]) =
     .ok (.dict (treeOf (.list 2 .ident) [.int 2] ++
-        (buckets (.idIf (.int 2) 0) [.int 3]).map (fun b => (b.1, valOfC true (.list 2 .ident) b.2)))) :=
-  c16_F10_exact 0 1 (.idIf (.int 2) 0) (.list 2 .ident) [.int 1] [.int 3] (.int 2) (by decide) rfl
+        (buckets (.idIf (.int 2) 0) [.int 3]).map (fun b => (b.1, implOf (.list 2 .ident) b.2)))) :=
+  c16_F10_exact 0 1 (.idIf (.int 2) 0) (.list 2 .ident) [.int 1] [.int 3] (.int 2) (by decide) (by decide) rfl
     (by intro y hy; simp at hy; rcases hy with rfl | rfl <;> rfl) (by decide) (by decide) (by decide) (by decide)
     (by intro y hy; simp at hy; subst hy; rfl)
 example : (V.dict (treeOf (.list 2 .ident) [.int 2] ++
-      (buckets (.idIf (.int 2) 0) [.int 3]).map (fun b => (b.1, valOfC true (.list 2 .ident) b.2))) ==
+      (buckets (.idIf (.int 2) 0) [.int 3]).map (fun b => (b.1, implOf (.list 2 .ident) b.2))) ==
     .dict [(idKey 2, .list [.int 2]), (.int 3, .list [.int 3])]) = true := by decide
 -- with the collision LAST the result is the hand-written loop's
 example : (observe (groupEval (.dict 0 1 (.idIf (.int 2) 0) (.list 2 .ident)) [.int 1, .int 2]) ==
